@@ -113,6 +113,7 @@ impl Proj {
                         p.delays.push((atom(d.first()?)?.to_string(), atom(d.get(1)?)?.parse().ok()?, atom(d.get(2)?)?.parse().ok()?));
                     }
                 }
+                "runs" => {} // C19: per-run forced delays, read by checks/c19.py
                 _ => return None,
             }
         }
